@@ -893,4 +893,297 @@ theorem n2_eq (sa sb : List Nat) : ∀ (xa xb : List Nat) (acc : Nat), xa.length
       rw [hall.1]
       exact ih xb _ (by simpa using hl) hall.2
 
+/-! ### the complete `_dot_csr_csr`, including its "completely dense" tail -/
+
+
+
+theorem zip_map_fst_snd' {β γ : Type} (l : List (β × γ)) : (l.map (·.1)).zip (l.map (·.2)) = l := by
+  induction l with
+  | nil => rfl
+  | cons e l ih => simp [ih]
+
+/-- pigeonhole: distinct naturals below `n` are at most `n` many -/
+theorem nodup_bounded_length (l : List Nat) (n : Nat) (hnd : l.Nodup) (hb : ∀ x ∈ l, x < n) : l.length ≤ n := by
+  have hp : (l ++ (List.range n).filter (fun x => !l.contains x)).Perm (List.range n) := by
+    rw [List.perm_ext_iff_of_nodup _ List.nodup_range]
+    · intro a
+      simp only [List.mem_append, List.mem_filter, List.mem_range, Bool.not_eq_true', List.contains_eq_mem,
+        decide_eq_false_iff_not]
+      constructor
+      · rintro (h | h)
+        · exact hb a h
+        · exact h.1
+      · intro h
+        by_cases ha : a ∈ l
+        · exact Or.inl ha
+        · exact Or.inr ⟨h, ha⟩
+    · rw [List.nodup_append]
+      refine ⟨hnd, List.Nodup.sublist List.filter_sublist List.nodup_range, ?_⟩
+      intro a ha b hb' hab
+      subst hab
+      simp only [List.mem_filter, Bool.not_eq_true', List.contains_eq_mem, decide_eq_false_iff_not] at hb'
+      exact hb'.2 ha
+  have := hp.length_eq
+  simp only [List.length_append, List.length_range] at this
+  omega
+
+theorem sum_le_of_le (g : Nat → Nat) (c m : Nat) (h : ∀ i, i < m → g i ≤ c) :
+    ((List.range m).map g).sum ≤ c * m := by
+  induction m with
+  | zero => simp
+  | succ m ih =>
+    rw [List.range_succ, List.map_append, List.sum_append_nat]
+    have := ih (fun i hi => h i (by omega))
+    have := h m (by omega)
+    simp only [List.map_cons, List.map_nil, List.sum_cons, List.sum_nil, Nat.add_zero]
+    rw [Nat.mul_succ]
+    omega
+
+theorem all_eq_of_sum_eq (g : Nat → Nat) (c m : Nat) (h : ∀ i, i < m → g i ≤ c)
+    (hs : ((List.range m).map g).sum = c * m) : ∀ i, i < m → g i = c := by
+  induction m with
+  | zero => intro i hi; omega
+  | succ m ih =>
+    rw [List.range_succ, List.map_append, List.sum_append_nat] at hs
+    simp only [List.map_cons, List.map_nil, List.sum_cons, List.sum_nil, Nat.add_zero] at hs
+    rw [Nat.mul_succ] at hs
+    have h1 := sum_le_of_le g c m (fun i hi => h i (by omega))
+    have h2 := h m (by omega)
+    have e1 : ((List.range m).map g).sum = c * m := by omega
+    have e2 : g m = c := by omega
+    intro i hi
+    by_cases him : i = m
+    · subst him; exact e2
+    · exact ih (fun i hi => h i (by omega)) e1 i (by omega)
+
+theorem revBlocks_flatten {β : Type} (n : Nat) (bs : List (List β)) (h : ∀ b ∈ bs, b.length = n) :
+    revBlocks n bs.length bs.flatten = (bs.map List.reverse).flatten := by
+  induction bs with
+  | nil => rfl
+  | cons b bs ih =>
+    have hb : b.length = n := h b List.mem_cons_self
+    simp only [List.length_cons, revBlocks, List.flatten_cons, List.map_cons]
+    rw [List.take_left' hb, List.drop_left' hb, ih (fun b' hb' => h b' (List.mem_cons_of_mem _ hb'))]
+
+theorem lookupK_reverse_map (ch : List Nat) (f : Nat → Int) (k : Nat) :
+    lookupK (ch.map fun c => (c, f c)).reverse k = lookupK (ch.map fun c => (c, f c)) k := by
+  rw [← List.map_reverse, lookupK_map, lookupK_map]
+  simp [List.mem_reverse]
+
+theorem rows_slice (g : Nat → List (Nat × Int)) (nRow : Nat) (out : List (Nat × Int)) (indptr : List Nat)
+    (hout : out = (List.range nRow).flatMap g)
+    (hptr : indptr = (List.range (nRow + 1)).map (fun m => ((List.range m).flatMap g).length))
+    (i : Nat) (hi : i < nRow) : slice out (indptr.getD i 0) (indptr.getD (i + 1) 0) = g i := by
+  rw [hout, hptr, getD_map_range _ _ _ _ (by omega), getD_map_range _ _ _ _ (by omega)]
+  exact slice_flatMap_range _ nRow i hi
+
+theorem rowEmit_length_le (nCol : Nat) (arow : List (Nat × Int)) (B : CSR) (hB : B.ColsIn nCol) :
+    (rowEmit arow B).length ≤ nCol := by
+  obtain ⟨h1, _⟩ := touchAll_inv (touches arow B) (inv_init nCol) (touches_fst_lt hB arow)
+  unfold rowEmit chainOf
+  rw [List.length_map]
+  exact nodup_bounded_length _ nCol h1.nodup h1.inR
+
+theorem lookupK_rowEmit_reverse (arow : List (Nat × Int)) (B : CSR) (k : Nat) :
+    lookupK (rowEmit arow B).reverse k = lookupK (rowEmit arow B) k := by
+  unfold rowEmit
+  exact lookupK_reverse_map _ _ k
+
+/-- the rows of the output of the complete `_dot_csr_csr` (after the "completely dense" tail) -/
+theorem dotCsrCsr_rows (nRow nCol : Nat) (A B : CSR) (hAw : A.WF) (hBw : B.WF) (hB : B.ColsIn nCol) (o : SparseOut)
+    (ho : dotCsrCsr nRow nCol A B = .ok o) :
+    o.alloc = o.data.length ∧ o.indices.length = o.data.length ∧
+    ∀ i, i < nRow →
+      (slice (o.indices.zip o.data) (o.indptr.getD i 0) (o.indptr.getD (i + 1) 0) = rowEmit (A.row i) B
+       ∨ slice (o.indices.zip o.data) (o.indptr.getD i 0) (o.indptr.getD (i + 1) 0) = (rowEmit (A.row i) B).reverse) := by
+  obtain ⟨_, hout, hptr⟩ := dotCsrCsrLoop_closed nRow nCol A B hB
+  have hcnt : csrCsrCountNnz nRow nCol A B = (dotCsrCsrLoop nRow nCol A B).out.length := by
+    rw [csrCsrCountNnz_closed nRow nCol A B hB, hout, List.length_flatMap]
+    congr 1
+    apply List.map_congr_left
+    intro i _
+    exact (length_rowEmit hAw hBw i).symm
+  unfold dotCsrCsr at ho
+  simp only at ho
+  split at ho
+  · rename_i hfull
+    split at ho
+    · cases ho
+    · rename_i hn0
+      injection ho with ho
+      subst ho
+      simp only [List.length_map]
+      have hpos : 0 < nCol := by omega
+      have hdiv : csrCsrCountNnz nRow nCol A B / nCol = nRow := by
+        rw [hfull]; exact Nat.mul_div_cancel_left nRow hpos
+      -- every row is full
+      have hlen : ∀ i, i < nRow → (rowEmit (A.row i) B).length = nCol := by
+        apply all_eq_of_sum_eq (fun i => (rowEmit (A.row i) B).length) nCol nRow
+        · intro i _; exact rowEmit_length_le nCol _ B hB
+        · rw [← hfull, hcnt, hout, List.length_flatMap]
+      have hrev : revBlocks nCol (csrCsrCountNnz nRow nCol A B / nCol) (dotCsrCsrLoop nRow nCol A B).out
+          = (List.range nRow).flatMap (fun i => (rowEmit (A.row i) B).reverse) := by
+        rw [hdiv, hout, List.flatMap_def, List.flatMap_def]
+        have := revBlocks_flatten nCol ((List.range nRow).map fun i => rowEmit (A.row i) B) (by
+          intro b hb
+          obtain ⟨i, hi, rfl⟩ := List.mem_map.mp hb
+          exact hlen i (List.mem_range.mp hi))
+        rw [List.length_map, List.length_range] at this
+        rw [this, List.map_map]
+        rfl
+      have hlenrev : ∀ m, ((List.range m).flatMap fun i => (rowEmit (A.row i) B).reverse).length
+          = ((List.range m).flatMap fun i => rowEmit (A.row i) B).length := by
+        intro m
+        rw [List.length_flatMap, List.length_flatMap]
+        congr 1
+        apply List.map_congr_left
+        intro i _
+        exact List.length_reverse
+      refine ⟨?_, trivial, ?_⟩
+      · rw [hrev, hlenrev, ← hout, hcnt]
+      · intro i hi
+        right
+        rw [zip_map_fst_snd']
+        apply rows_slice (fun i => (rowEmit (A.row i) B).reverse) nRow _ _ hrev _ i hi
+        rw [hptr]
+        apply List.map_congr_left
+        intro m _
+        exact (hlenrev m).symm
+  · injection ho with ho
+    subst ho
+    simp only [List.length_map]
+    refine ⟨hcnt, trivial, ?_⟩
+    intro i hi
+    left
+    rw [zip_map_fst_snd']
+    exact rows_slice _ nRow _ _ hout hptr i hi
+
+
+
+/-! ### `_csr_ndarray_count_nnz` / `_dot_csr_ndarray_sparse` -/
+
+theorem foldl_count (l : List Nat) (p : Nat → Bool) (c : Nat) :
+    l.foldl (fun n j => if p j then n + 1 else n) c = c + l.countP p := by
+  induction l generalizing c with
+  | nil => simp
+  | cons x l ih =>
+    simp only [List.foldl_cons, List.countP_cons]
+    rw [ih]
+    by_cases h : p x <;> simp [h] <;> omega
+
+/-- the accumulator pair of one `(i, j)` cell: the sum and the `nonzero` flag -/
+theorem cell_fold (arow : List (Nat × Int)) (b : Dense) (j : Nat) (s0 : Int) (f0 : Bool) :
+    arow.foldl (fun (st : Int × Bool) e => (st.1 + e.2 * dget b e.1 j, st.2 || (dget b e.1 j != 0))) (s0, f0)
+      = (s0 + (arow.map fun e => e.2 * dget b e.1 j).sum, f0 || arow.any fun e => dget b e.1 j != 0) := by
+  induction arow generalizing s0 f0 with
+  | nil => simp
+  | cons e r ih =>
+    simp only [List.foldl_cons, List.map_cons, List.sum_cons, List.any_cons]
+    rw [ih]
+    simp only [Bool.or_assoc, Prod.mk.injEq, and_true]
+    omega
+
+theorem filterMap_if_eq_map_filter {β : Type} (l : List Nat) (p : Nat → Bool) (g : Nat → β) :
+    l.filterMap (fun j => if p j = true then some (g j) else none) = (l.filter p).map g := by
+  induction l with
+  | nil => rfl
+  | cons j l ih =>
+    by_cases h : p j = true
+    · simp [h, ih]
+    · simp [h, ih]
+
+/-- one output row of `_dot_csr_ndarray_sparse` in closed form -/
+theorem dotCsrNdSparseRow_eq (nCol : Nat) (arow : List (Nat × Int)) (b : Dense) :
+    dotCsrNdSparseRow nCol arow b
+      = ((List.range nCol).filter fun j => arow.any fun e => dget b e.1 j != 0).map
+          fun j => (j, (arow.map fun e => e.2 * dget b e.1 j).sum) := by
+  unfold dotCsrNdSparseRow
+  have hfun : (fun j =>
+      let st := arow.foldl (fun (st : Int × Bool) e =>
+        (st.1 + e.2 * dget b e.1 j, st.2 || (dget b e.1 j != 0))) (0, false)
+      if st.2 then some (j, st.1) else none)
+      = fun j => if (arow.any fun e => dget b e.1 j != 0) = true
+          then some (j, (arow.map fun e => e.2 * dget b e.1 j).sum) else none := by
+    funext j
+    simp only [cell_fold, Bool.false_or, Int.zero_add]
+  rw [hfun]
+  exact filterMap_if_eq_map_filter _ _ _
+
+theorem hit_eq {A : CSR} (hA : A.WF) (b : Dense) (i j : Nat) :
+    csrNdHit (A.rowIdx i) b j = (A.row i).any fun e => dget b e.1 j != 0 := by
+  unfold csrNdHit
+  rw [← row_map_fst hA i, List.any_map]
+  rfl
+
+theorem csrNdCountNnz_closed (nRow nCol : Nat) (A : CSR) (b : Dense) :
+    (csrNdCountNnz nRow nCol A b).1
+      = ((List.range nRow).map fun i => (List.range nCol).countP fun j => csrNdHit (A.rowIdx i) b j).sum
+    ∧ (csrNdCountNnz nRow nCol A b).2
+      = (List.range (nRow + 1)).map fun m =>
+          ((List.range m).map fun i => (List.range nCol).countP fun j => csrNdHit (A.rowIdx i) b j).sum := by
+  induction nRow with
+  | zero => simp [csrNdCountNnz]
+  | succ n ih =>
+    obtain ⟨h1, h2⟩ := ih
+    have step : csrNdCountNnz (n + 1) nCol A b =
+        (let st := csrNdCountNnz n nCol A b
+         let nnz := (List.range nCol).foldl (fun c j => if csrNdHit (A.rowIdx n) b j then c + 1 else c) st.1
+         (nnz, st.2 ++ [nnz])) := by
+      simp only [csrNdCountNnz, List.range_succ, List.foldl_append, List.foldl_cons, List.foldl_nil]
+    rw [step]
+    simp only
+    rw [foldl_count, h1, h2]
+    refine ⟨?_, ?_⟩
+    · rw [List.range_succ, List.map_append, List.sum_append_nat]; simp
+    · have hF : ((List.range (n + 1)).map fun i => (List.range nCol).countP fun j => csrNdHit (A.rowIdx i) b j).sum
+          = ((List.range n).map fun i => (List.range nCol).countP fun j => csrNdHit (A.rowIdx i) b j).sum
+            + (List.range nCol).countP (fun j => csrNdHit (A.rowIdx n) b j) := by
+        rw [List.range_succ, List.map_append, List.sum_append_nat]; simp
+      rw [List.range_succ (n := n + 1), List.map_append]
+      simp only [List.map_cons, List.map_nil]
+      rw [hF]
+
+theorem length_filter_eq_countP {β : Type} (l : List β) (p : β → Bool) : (l.filter p).length = l.countP p := by
+  induction l with
+  | nil => rfl
+  | cons x l ih => by_cases h : p x <;> simp [List.filter_cons, List.countP_cons, h, ih]
+
+
+theorem lookupK_filter_map (n : Nat) (p : Nat → Bool) (g : Nat → Int) (k : Nat) :
+    lookupK (((List.range n).filter p).map fun j => (j, g j)) k = if k < n ∧ p k = true then g k else 0 := by
+  rw [lookupK_map]
+  simp [List.mem_filter, List.mem_range]
+
+/-- closed form of what `_dot_csr_ndarray_sparse` writes and of the index pointer from its pre-count -/
+theorem dotCsrNdSparse_closed (nRow nCol : Nat) (A : CSR) (b : Dense) (hA : A.WF) :
+    (dotCsrNdSparse nRow nCol A b).indices.zip (dotCsrNdSparse nRow nCol A b).data
+      = (List.range nRow).flatMap (fun i => dotCsrNdSparseRow nCol (A.row i) b)
+    ∧ (dotCsrNdSparse nRow nCol A b).indptr
+      = (List.range (nRow + 1)).map (fun m => ((List.range m).flatMap fun i => dotCsrNdSparseRow nCol (A.row i) b).length)
+    ∧ (dotCsrNdSparse nRow nCol A b).alloc = (dotCsrNdSparse nRow nCol A b).data.length := by
+  have hrow : ∀ i, (dotCsrNdSparseRow nCol (A.row i) b).length
+      = (List.range nCol).countP fun j => csrNdHit (A.rowIdx i) b j := by
+    intro i
+    rw [dotCsrNdSparseRow_eq, List.length_map, length_filter_eq_countP]
+    congr 1
+    funext j
+    exact (hit_eq hA b i j).symm
+  have hpre : ∀ m, ((List.range m).flatMap fun i => dotCsrNdSparseRow nCol (A.row i) b).length
+      = ((List.range m).map fun i => (List.range nCol).countP fun j => csrNdHit (A.rowIdx i) b j).sum := by
+    intro m
+    rw [List.length_flatMap]
+    congr 1
+    apply List.map_congr_left
+    intro i _
+    exact hrow i
+  obtain ⟨c1, c2⟩ := csrNdCountNnz_closed nRow nCol A b
+  unfold dotCsrNdSparse
+  simp only [zip_map_fst_snd', List.length_map]
+  refine ⟨trivial, ?_, ?_⟩
+  · rw [c2]
+    apply List.map_congr_left
+    intro m _
+    exact (hpre m).symm
+  · rw [c1, hpre]
+
 end SparseV.Dot
